@@ -171,6 +171,15 @@ def run(ctx):
             for t in ("this monday", "diesen sonntag", "next friday", "monday next week", "on thursday", "tomorrow", "eom", "end of year", "sunday"):
                 cases.append({"text": t, "ts": (y, mm, dd, 12, 0), "latent": 1, "depth": 10, "rel": 1.0, "scorer": "shipped", "seed": 0,
                               "entries": ["single"], "label": "new-year", "form": "new-year"})
+    # clock ranges over all 24x24 hour pairs (the 9-5 / day-wrap arithmetic branches on both hours), bare, dated, with minutes
+    forms = ["%d-%d", "%d:00-%d:00", "%d:30-%d:00", "%d:15 bis %d:15 uhr", "tomorrow %d-%d", "1.1.2020 %d:30 - %d:00", "%d to %d", "von %d bis %d uhr"]
+    for h1 in range(24):
+        for h2 in range(24):
+            fs = forms if (h1 == h2 or (h1 % 12 == 0 and h2 % 12 == 0)) else rnd.sample(forms, 1 if ctx.quick else 4)
+            for f in fs:
+                for latent in ((1, 0) if h1 == h2 or not ctx.quick else (rnd.choice((1, 0)),)):
+                    cases.append({"text": f % (h1, h2), "ts": (2018, 3, 7, 12, 43), "latent": latent, "depth": 10, "rel": 1.0, "scorer": "shipped",
+                                  "seed": 0, "entries": ["single", "gen"], "label": "clock-range", "form": "clock-range"})
     # smoke subset under a tiny REAL timeout (the expiry point is not controlled here; C13 enumerates them)
     for t in texts[::40]:
         cases.append({"text": t, "ts": (2018, 3, 7, 12, 43), "latent": 1, "depth": 10, "rel": 1.0, "scorer": "shipped", "timeout": 0.0001,
